@@ -100,6 +100,15 @@ var Magic = [8]byte{'c', 'o', 'm', 'p', 'i', 's', 'z', 'd'}
 
 const Version = uint8(1)
 
+const (
+	// minHeaderLen is the length of the smallest header (without magic and length field):
+	// value size (8), number of buckets (4) and version (1).
+	minHeaderLen = 8 + 4 + 1
+	// maxHeaderLen is the length of the largest header the format can express:
+	// the fixed fields followed by the largest possible metadata section.
+	maxHeaderLen = minHeaderLen + 1 + indexmeta.MaxNumKVs*(1+indexmeta.MaxKeySize+1+indexmeta.MaxValueSize)
+)
+
 // Header occurs once at the beginning of the index.
 type Header struct {
 	ValueSize  uint64
@@ -109,16 +118,19 @@ type Header struct {
 
 // Load checks the Magic sequence and loads the header fields.
 func (h *Header) Load(buf []byte) error {
+	if len(buf) < 8+4 {
+		return fmt.Errorf("invalid header length")
+	}
 	// Use a magic byte sequence to bail fast when user passes a corrupted/unrelated stream.
 	if *(*[8]byte)(buf[:8]) != Magic {
 		return fmt.Errorf("not a radiance compactindex file")
 	}
 	// read length of the rest of the header
 	lenWithoutMagicAndLen := binary.LittleEndian.Uint32(buf[8:12])
-	if lenWithoutMagicAndLen < 12 {
+	if lenWithoutMagicAndLen < minHeaderLen || lenWithoutMagicAndLen > maxHeaderLen {
 		return fmt.Errorf("invalid header length")
 	}
-	if lenWithoutMagicAndLen > uint32(len(buf)) {
+	if uint64(lenWithoutMagicAndLen)+8+4 > uint64(len(buf)) {
 		return fmt.Errorf("invalid header length")
 	}
 	// read the rest of the header
